@@ -887,6 +887,10 @@ def _dither_points(tier):
 
 
 def subchecks(tier, seed):
+    # import torch (single-threaded) and the library's torch module ONCE in the parent: every chunk
+    # runs in a freshly forked child, which would otherwise pay the import again each time
+    _torch()
+    import pydrobert.speech.torch  # noqa: F401
     quick = tier == "quick"
     banks = list(BANKS) if quick else BANKS + ["tri", "gabor3", "gammatone_mc"]
     Ls = list(range(2, 13)) if quick else list(range(2, 18)) + [25, 32, 33]
